@@ -235,6 +235,118 @@ def precision_jobs(rng, nterr, steps, per=5):
     return jobs
 
 
+# ---- input variation: memory layouts, dtypes, coordinate conventions, argument types, boundary parameters,
+# degenerate shapes, extreme relief, repeated calls
+LAYOUTS = ["C", "F", "T", "S", "R"]
+DTYPES = ["int8", "uint8", "int16", "int32", "int64", "uint16", "float32", "float64"]
+DRANGE = {"int8": (-128, 127), "uint8": (0, 255), "int16": (-32768, 32767), "uint16": (0, 65535),
+          "int32": (-2 ** 31, 2 ** 31 - 1), "int64": (-2 ** 63, 2 ** 63 - 1)}
+VCELLS = [(1, 1, 1), (2, 1, 1), (1, 3, 1), (1, 3, 2), (30, 10, 1)]     # (ew, ns, cscale): true size = ew/cs x ns/cs
+VSHAPES = [(2, 2), (2, 5), (5, 2), (3, 3), (2, 7), (7, 2), (4, 5), (5, 5), (3, 6)]
+
+
+def special_observers(H, W):
+    rs = sorted({0, (H - 1) // 2, H - 1})
+    cs = sorted({0, (W - 1) // 2, W - 1})
+    return [(r, c) for r in rs for c in cs if r in (0, H - 1) or c in (0, W - 1)]   # corners + edge midpoints
+
+
+def variation_terrain(rng, H, W, dtype):
+    lo, hi = DRANGE.get(dtype, (-10 ** 9, 10 ** 9))
+    kind = rng.choice(["relief", "relief", "flat", "limits", "spike"])
+    if kind == "relief" or (kind == "spike" and hi < 10 ** 6):
+        vals = [0, 0, 1, 2, 3, 5, 9] + ([-1, -4] if lo < 0 else [])
+        t = [[rng.choice(vals) for _ in range(W)] for _ in range(H)]
+        kind = "v_relief"
+    elif kind == "flat":
+        v = rng.choice([0, 3] + ([-2] if lo < 0 else []))
+        t = [[v] * W for _ in range(H)]
+        kind = "v_flat"
+    elif kind == "limits":                       # values at the ends of the dtype's range (narrow ints)
+        if dtype.startswith("float") or dtype in ("int32", "int64"):
+            ends = [-1000, 1000]
+        else:
+            ends = [lo, hi]
+        t = [[rng.choice([ends[0], ends[1], ends[1], ends[1] - 1, ends[0] + 1]) for _ in range(W)] for _ in range(H)]
+        kind = "v_limits"
+    else:                                        # a single spike of 1e6 on a plain
+        t = [[0] * W for _ in range(H)]
+        t[rng.randrange(H)][rng.randrange(W)] = 10 ** 6
+        kind = "v_spike"
+    if dtype == "float64" and rng.random() < 0.3 and kind == "v_relief":
+        t = [[v + rng.choice([0, 0.1, 0.25]) for v in row] for row in t]
+    if dtype == "float32" and rng.random() < 0.3 and kind == "v_relief":
+        t = [[v + rng.choice([0, 0.25, 0.5]) for v in row] for row in t]
+    return kind, t
+
+
+def variation_jobs(rng, n, steps):
+    jobs = []
+    for i in range(n):
+        H, W = rng.choice(VSHAPES)
+        dtype = DTYPES[i % len(DTYPES)]
+        kind, terr = variation_terrain(rng, H, W, dtype)
+        spec = special_observers(H, W)
+        vr, vc = spec[i % len(spec)] if rng.random() < 0.8 else (rng.randrange(H), rng.randrange(W))
+        ew, ns, cs = rng.choice(VCELLS)
+        x0 = rng.choice([0, 10, -7, 100.25, -3.5])
+        y0 = rng.choice([0, 50, -3, 7.75])
+        sx = -1 if rng.random() < 0.3 else 1
+        sy = -1 if rng.random() < 0.5 else 1
+        xs = [x0 + sx * (ew / cs) * c for c in range(W)]
+        ys = [y0 + sy * (ns / cs) * r for r in range(H)]
+        ox, oy = xs[vc], ys[vr]                                  # exactly on the cell centre
+        integral = float(ox).is_integer() and float(oy).is_integer()
+        oxtype = rng.choice(["float", "npfloat"] + (["int", "npint"] if integral else []))
+        # observer_elev / target_elev as the Python ints or floats a caller would write
+        obs = rng.choice([0, -1, 1, 0.1, 10 ** 6, 1e6, -1.0, 1.0])
+        if dtype == "float32" and obs == 0.1:
+            obs = 2.5                                            # keep the eye height exact in single precision
+        tgt = rng.choice([0, 0.1, 5, 5.0])
+        if dtype == "float32" and tgt == 0.1:
+            tgt = 0.5
+        jobs.append({"kind": "los", "H": H, "W": W, "terrain": terr, "xs": xs, "ys": ys, "ox": ox, "oy": oy,
+                     "obs": obs, "tgt": tgt, "dtype": dtype, "vr": vr, "vc": vc, "ew": ew, "ns": ns, "cscale": cs,
+                     "layout": LAYOUTS[(i // len(DTYPES)) % len(LAYOUTS)], "oxtype": oxtype,
+                     "repeat": rng.random() < 0.5, "steps": steps, "tag": kind})
+    return jobs
+
+
+def narrow_edge_jobs(rng, steps):
+    """observer standing on a cell at the end of a narrow integer dtype's range, observer_elev = +-1 given as a
+    Python int (the eye height must not wrap) and, as a control, as a float"""
+    jobs = []
+    for dtype, at, obs in (("int8", 127, 1), ("uint8", 255, 1), ("int16", 32767, 1), ("uint16", 65535, 1),
+                           ("int8", -128, -1), ("int16", -32768, -1)):
+        for o in (obs, float(obs)):
+            H, W = rng.choice([(3, 3), (3, 4), (4, 4)])
+            lo, hi = DRANGE[dtype]
+            base = at - 6 if at > 0 else at + 6
+            terr = [[base + rng.choice([0, 1, 2, 4]) for _ in range(W)] for _ in range(H)]
+            vr, vc = rng.randrange(H), rng.randrange(W)
+            terr[vr][vc] = at
+            xs = [float(c) for c in range(W)]
+            ys = [float(H - 1 - r) for r in range(H)]
+            jobs.append({"kind": "los", "H": H, "W": W, "terrain": terr, "xs": xs, "ys": ys, "ox": xs[vc],
+                         "oy": ys[vr], "obs": o, "tgt": 0, "dtype": dtype, "vr": vr, "vc": vc, "ew": 1, "ns": 1,
+                         "cscale": 1, "layout": "C", "oxtype": "float", "repeat": False, "steps": steps,
+                         "tag": "v_narrow_edge"})
+    return jobs
+
+
+def narrow_int_class(j):
+    """the eye height raster.values[y, x] + observer_elev is formed in the raster's (narrow) integer dtype when
+    observer_elev is a Python int: returns "raise" (NumPy refuses the int), "wrap" (the sum leaves the range) or None"""
+    dt, obs = j.get("dtype", "float64"), j["obs"]
+    if dt not in DRANGE or not isinstance(obs, int) or isinstance(obs, bool):
+        return None
+    lo, hi = DRANGE[dt]
+    if not lo <= obs <= hi:
+        return "raise"
+    v = int(j["terrain"][j["vr"]][j["vc"]])
+    return None if lo <= v + obs <= hi else "wrap"
+
+
 BIG_SIZES = [(9, 9), (11, 11), (13, 13), (9, 13)]
 
 
@@ -271,14 +383,16 @@ def big_jobs(rng, nterr, sizes=BIG_SIZES):
 
 
 def strip_los(c):
-    return {k: c[k] for k in ("H", "W", "vr", "vc", "ew", "ns", "cells", "blocks", "svr", "svc", "sew", "sns",
-                              "order", "ops")}
+    d = {k: c[k] for k in ("H", "W", "vr", "vc", "ew", "ns", "cells", "blocks", "svr", "svc", "sew", "sns",
+                           "order", "ops")}
+    d["rep"] = c.get("rep", 1)
+    return d
 
 
 def los_key(clause, case):
-    j = case["job"]
-    pos = "corner" if (j["vr"] in (0, j["H"] - 1) and j["vc"] in (0, j["W"] - 1)) else \
-        "edge" if (j["vr"] in (0, j["H"] - 1) or j["vc"] in (0, j["W"] - 1)) else "interior"
+    k = narrow_int_class(case["job"])
+    if k == "wrap":
+        return "viewshed:eye-height-wraps-in-narrow-int-dtype"
     return "viewshed:%s" % clause
 
 
@@ -287,7 +401,11 @@ def handle_los(ctx, cases, mode):
     for c in cases:
         if "error" in c:
             ctx.evaluations += 1
-            ctx.violation("viewshed:call-raised", "call_raised", c["job"], c["error"])
+            k = narrow_int_class(c["job"])
+            key = "viewshed:int-observer-elev-raises-on-narrow-int-raster" if k == "raise" and \
+                "OverflowError" in c["error"] else "viewshed:call-raised"
+            ctx.violation(key, "call_raised", c["job"], "%s dtype=%s observer_elev=%r: %s"
+                          % (c["job"].get("tag"), c["job"].get("dtype"), c["job"]["obs"], c["error"]))
     v = ctx.judge("ViewLOS_Judge", [strip_los(c) for c in ok], name="los_" + mode, stateful=True, workers=6,
                   parallel=8)
     leaned = 0
@@ -314,9 +432,9 @@ def handle_los(ctx, cases, mode):
         elif cl != "ok":
             j = c["job"]
             ctx.violation(los_key(cl, c), cl, {"job": j, "observed": c["raw"]},
-                          "%s %dx%d observer=(%d,%d) obs_elev=%s target_elev=%s cell=(%d,%d) dtype=%s [%s]"
+                          "%s %dx%d observer=(%d,%d) obs_elev=%r target_elev=%r cell=(%d,%d)/%d dtype=%s layout=%s [%s]"
                           % (j["tag"], c["H"], c["W"], c["vr"], c["vc"], j["obs"], j["tgt"], c["ew"], c["ns"],
-                             j.get("dtype"), mode))
+                             j.get("cscale", 1), j.get("dtype"), j.get("layout", "C"), mode))
         if ex[0].startswith("drift"):
             ctx.report_drift("sweep step level: %s on %dx%d observer (%d,%d) [%s]"
                              % (ex[0], c["H"], c["W"], c["vr"], c["vc"], mode))
@@ -466,16 +584,18 @@ def run(ctx):
                   for H in range(2, mx + 1) for W in range(2, mx + 1) for vr in range(H) for vc in range(W)]
     if not thorough:
         table_jobs += [{"kind": "tables", "H": 7, "W": 7, "vr": vr, "vc": vc} for vr in range(7) for vc in range(7)]
-    tree_jobs = perm_jobs(rng, 4) + perm_jobs(rng, 5, limit=ctx.pick(150, 5000))
+    tree_jobs = perm_jobs(rng, 4) + perm_jobs(rng, 5, limit=ctx.pick(120, 5000))
     if thorough:
         tree_jobs += perm_jobs(rng, 6, limit=1500)
-    tree_jobs += sim_jobs(ctx, rng, ctx.pick(60, 600), ctx.pick(40, 60), 12)
-    comp_jobs = los_jobs(rng, ctx.pick(9, 120), steps=False) + big_jobs(rng, ctx.pick(40, 500)) + \
+    tree_jobs += sim_jobs(ctx, rng, ctx.pick(50, 600), ctx.pick(40, 60), 12)
+    comp_jobs = los_jobs(rng, ctx.pick(9, 120), steps=False) + big_jobs(rng, ctx.pick(36, 500)) + \
         big_jobs(rng, ctx.pick(10, 100), sizes=[(17, 17), (21, 21)]) + \
-        precision_jobs(rng, ctx.pick(16, 200), steps=False)
+        precision_jobs(rng, ctx.pick(16, 200), steps=False) + variation_jobs(rng, ctx.pick(120, 2400), steps=False) + \
+        narrow_edge_jobs(rng, False)
     interp_jobs = los_jobs(rng, ctx.pick(34, 300), steps=True, every_observer=False) + \
         los_jobs(rng, ctx.pick(4, 30), steps=True, every_observer=True, sizes=[(3, 3), (4, 5), (5, 5)]) + \
-        precision_jobs(rng, ctx.pick(8, 100), steps=True, per=4)
+        precision_jobs(rng, ctx.pick(8, 100), steps=True, per=4) + variation_jobs(rng, ctx.pick(24, 400), steps=True) + \
+        narrow_edge_jobs(rng, True)
     results, errors = {}, {}
 
     def bg(name, fn):
@@ -542,7 +662,7 @@ def run_checks(ctx, rng, thorough, table_jobs, tree_jobs, wait):
         geo += [("6to7_sq", 6, 7, 6, 7, 1, 1), ("upto7_2x1", 1, 7, 1, 7, 2, 1), ("upto7_1x3", 1, 7, 1, 7, 1, 3),
                 ("8to9_1x3", 8, 9, 8, 9, 1, 3), ("8to9_2x1", 8, 9, 8, 9, 2, 1)]
     else:
-        geo += [("7x7_2x1", 7, 7, 7, 7, 2, 1), ("7x7_1x3", 7, 7, 7, 7, 1, 3)]
+        geo += [("7x7_2x1", 7, 7, 7, 7, 2, 1), ("6x6_1x3", 6, 6, 6, 6, 1, 3)]
     ginv = ["TypeOK", "CornersAreExtreme", "SweepMatchesGeometry", "WellFormedOps", "NoDupKeys",
             "EndsWhereItStarted"]
     for name, h0, h1, w0, w1, ew, ns in geo:
